@@ -88,7 +88,7 @@ func execute(d *dev) (run *hist.Run, blocks int, applied int) {
 						continue
 					}
 					c := clone(m)
-					if mutate(reflect.ValueOf(c), strings.Split(d.Field, "."), d.Value) {
+					if mutate(reflect.ValueOf(c), strings.Split(d.Field, "/"), d.Value) {
 						txs[ti].Msgs[mi] = c
 						first = i
 						applied++
@@ -281,6 +281,10 @@ func collect(v reflect.Value, msgType, path string, emit func(leaf)) {
 		return
 	case t == anyType:
 		emit(leaf{msgType, path, "Any"})
+		// descend into the packed value (the script packs with NewAnyWithValue, so it is cached)
+		if a, ok := v.Addr().Interface().(*codectypes.Any); ok && a.GetCachedValue() != nil {
+			collect(reflect.ValueOf(a.GetCachedValue()), msgType, path+"/@"+strings.TrimPrefix(a.TypeUrl, "/"), emit)
+		}
 		return
 	}
 	switch v.Kind() {
@@ -295,7 +299,7 @@ func collect(v reflect.Value, msgType, path string, emit func(leaf)) {
 			}
 			p := f.Name
 			if path != "" {
-				p = path + "." + f.Name
+				p = path + "/" + f.Name
 			}
 			collect(v.Field(i), msgType, p, emit)
 		}
@@ -306,7 +310,7 @@ func collect(v reflect.Value, msgType, path string, emit func(leaf)) {
 		}
 		emit(leaf{msgType, path, "list"})
 		if v.Len() > 0 {
-			collect(v.Index(0), msgType, path+".0", emit)
+			collect(v.Index(0), msgType, path+"/0", emit)
 		}
 	case reflect.String:
 		emit(leaf{msgType, path, "string"})
@@ -370,6 +374,34 @@ func mutate(v reflect.Value, path []string, val string) (ok bool) {
 			return false
 		}
 		v = v.Elem()
+	}
+	if len(path) > 0 && strings.HasPrefix(path[0], "@") {
+		// inside an Any: mutate a copy of the packed value and re-pack (only for the recorded type)
+		if v.Type() != anyType || !v.CanAddr() {
+			return false
+		}
+		a := v.Addr().Interface().(*codectypes.Any)
+		inner, _ := a.GetCachedValue().(proto.Message)
+		if inner == nil || strings.TrimPrefix(a.TypeUrl, "/") != strings.TrimPrefix(path[0], "@") {
+			return false
+		}
+		bz, err := proto.Marshal(inner)
+		if err != nil {
+			return false
+		}
+		c := reflect.New(reflect.TypeOf(inner).Elem()).Interface().(proto.Message)
+		if proto.Unmarshal(bz, c) != nil {
+			return false
+		}
+		if !mutate(reflect.ValueOf(c), path[1:], val) {
+			return false
+		}
+		na, err := codectypes.NewAnyWithValue(c)
+		if err != nil {
+			return false
+		}
+		v.Set(reflect.ValueOf(*na))
+		return true
 	}
 	if len(path) > 0 {
 		if v.Kind() == reflect.Slice && path[0] == "0" {
